@@ -350,8 +350,14 @@ def rule_S(ck):
     m = ctx.macros(ck)
     if m is None:
         return
-    ex, ps = ctx.summarize(m, TRYFROM, ck)
-    if ck.anchor("C01-S", TRYFROM, ex):
+    try:
+        ex, ps = ctx.summarize(m, TRYFROM, ck)
+    except pathsum.Unsupported as u:
+        ex = None
+        ck.skip("C01-S", "try_from:unsupported", "construct outside the interpreter's language: %s" % u)
+    if ex is None:
+        ck.skip("C01-S", "try_from:anchor", "Command::try_from not found under that name; decided by C01-T")
+    else:
         b = m.body(TRYFROM)
         val = ("param", b["params"][0].get("name"))
         n_push = 0
@@ -428,10 +434,17 @@ def rule_S(ck):
                     ok_short = cls == frozenset(range(128)) - frozenset(range(97, 123))
             ck.judge(ok_short, "C01-S", key + ":short", "short = the part's characters that are not lower case (ASCII: everything but a-z)",
                      "short form keeps %s of the ASCII characters; it must keep exactly those that are not a-z (digits, '_' and '*' included)" % (bytecls.show_set(cls) if cls is not None else show_term(sh) if sh else None))
-        ck.floor("C01-S", "part-pushing paths of Command::try_from", n_push, 4)
-        ck.floor("C01-S", "return paths of Command::try_from", n_ret, 2)
-    ex, ps = ctx.summarize(m, PATHS, ck)
-    if ck.anchor("C01-S", PATHS, ex):
+        if n_push < 4 or n_ret < 2:
+            ck.skip("C01-S", "try_from:shape", "Command::try_from is not the split/loop/push shape this supplementary rule reads (%d part-pushing paths, %d return paths); "
+                    "the spelling rule is decided by C01-T on the witness interfaces" % (n_push, n_ret))
+    try:
+        ex, ps = ctx.summarize(m, PATHS, ck)
+    except pathsum.Unsupported as u:
+        ex = None
+        ck.skip("C01-S", "paths:unsupported", "construct outside the interpreter's language: %s" % u)
+    if ex is None:
+        ck.skip("C01-S", "paths:anchor", "Command::paths not found under that name; decided by C01-T")
+    else:
         n = 0
         for i, x in enumerate(ex):
             if x.kind != "backedge":
@@ -480,7 +493,8 @@ def rule_S(ck):
             want = [(True, ("long",))] + ([(True, ("short",))] if ne else []) + ([(True, ())] if opt else [])
             ck.judge(got == want, "C01-S", key, "every path so far is extended by %s" % [w[1] for w in want],
                      "a step of paths() extends the paths by %s, expected %s" % ([g[1] if g[0] else "not-a-clone" for g in got], [w[1] for w in want]), data=pathsum.show_exit(x)[:800])
-        ck.floor("C01-S", "steps of Command::paths", n, 4)
+        if n < 4:
+            ck.skip("C01-S", "paths:shape", "Command::paths is not the nested-loop shape this supplementary rule reads (%d steps found); decided by C01-T" % n)
 
 
 def rule_T_repo(ck):
